@@ -57,7 +57,11 @@ class C06(SessionProp):
         bad = bytes.fromhex("300e02010161090a0100040004056162")
         good = msgs.pack([1, [8, [0, b"", b"", []], [], []], []])
         pre = [[C_EXT, b"1.2", [], []]]
-        return [
+        empties = [
+            {"role": r, "pre": [], "chunks": [e], "calls": [[RECV, e]], "meta": None, "damaged": 1}
+            for r in (0, 1) for e in (bytes.fromhex("308100"), bytes.fromhex("30820000"), bytes.fromhex("308400000000"))
+        ]
+        return empties + [
             {"role": 0, "pre": pre, "chunks": [bad + good], "calls": pre + [[RECV, bad + good]], "meta": None, "damaged": 1},
             {"role": 0, "pre": pre, "chunks": [bad], "calls": pre + [[RECV, bad]], "meta": None, "damaged": 1},
         ]
@@ -97,8 +101,13 @@ class C06(SessionProp):
                 + ber.tlv(2, True, 0, ctl)
             units.insert(rng.randrange(len(units) + 1), ber.tlv(0, True, 16, body))
             damaged += 1
+        if rng.random() < 0.08:
+            # a complete outer unit with NO content, its zero length written in a long form, as the last thing
+            # delivered: it is complete (nothing more will come) and is not a message
+            units.append(rng.choice([bytes.fromhex("308100"), bytes.fromhex("30820000"), bytes.fromhex("308400000000"), bytes.fromhex("3000")]))
+            damaged += 1
         stream = b"".join(units)
-        if rng.random() < 0.15:
+        if rng.random() < 0.15 and not stream.endswith(b"\x00"):
             stream += stream[: rng.randrange(1, 6)]  # a genuinely incomplete tail
         chunks = [stream] if rng.random() < 0.3 else chunkings(rng, stream)
         return {"role": role, "pre": pre, "chunks": chunks, "calls": pre + [[RECV, c] for c in chunks], "meta": None, "damaged": damaged}
